@@ -486,38 +486,6 @@ def column (k : String) : List J → PyR (List J)
     let vs ← column k rest
     return v :: vs
 
-/-- numeric value of a JSON number (for `sorted(..., key=...)`) -/
-def numKey? : J → Option Float
-  | .int i => some (Float.ofInt i)
-  | .flt b => some (Float.ofBits (UInt64.ofNat b))
-  | _ => none
-
-def insertByNum (x : Float × J) : List (Float × J) → List (Float × J)
-  | [] => [x]
-  | y :: ys => if x.1 < y.1 then x :: y :: ys else y :: insertByNum x ys
-
-/-- `sorted(l, key=lambda x: x[k])` (stable) for numeric keys; identity when `sortIt` is false -/
-def sortByNumKey (sortIt : Bool) (k : String) (l : List J) : PyR (List J) :=
-  if !sortIt then pure l else do
-    let keyed ← l.mapM (fun it => do
-      match numKey? (← (← asObj it).get k) with
-      | some f => pure (f, it)
-      | none => typeError "key is not a number")
-    return (keyed.foldl (fun acc x => insertByNum x acc) []).map (·.2)
-
-/-- body of `convert_back_loss_coeff_list`; `sortIt` = the proposed repair of F11 (entries taken in
-    ascending frequency instead of document order) -/
-def lossCoefToLegacyWith (sortIt : Bool) (params : Dict) : PyR Dict := do
-  match params.get? "loss_coef_per_frequency" with
-  | none => return params
-  | some l =>
-    let p := params.erase "loss_coef_per_frequency"
-    if !l.truthy then return p
-    let items ← sortByNumKey sortIt "frequency" (← asArr l)
-    let fr ← column "frequency" items
-    let va ← column "loss_coef_value" items
-    return p.set "loss_coef" (.obj [("frequency", .arr fr), ("value", .arr va)])
-
 /-- body of `convert_back_loss_coeff_list` -/
 def lossCoefToLegacy (params : Dict) : PyR Dict := do
   match params.get? "loss_coef_per_frequency" with
@@ -532,8 +500,6 @@ def lossCoefToLegacy (params : Dict) : PyR Dict := do
 
 def convertBackLossCoefList (doc : Dict) : PyR Dict :=
   forEachIn doc "elements" (fun elem => withParams elem lossCoefToLegacy)
-def convertBackLossCoefListSorted (doc : Dict) : PyR Dict :=
-  forEachIn doc "elements" (fun elem => withParams elem (lossCoefToLegacyWith true))
 
 /-- `d.pop(k, [])` value -/
 def popD (d : Dict) (k : String) : J := (d.get? k).getD (.arr [])
@@ -576,25 +542,6 @@ def ramanCoefToLegacy (params : Dict) : PyR Dict := do
 
 def convertBackRamanCoef (doc : Dict) : PyR Dict :=
   forEachIn doc "elements" (fun elem => withParams elem ramanCoefToLegacy)
-
-/-- `convert_back_raman_coef` with the proposed repair of F11 (ascending frequency offset) -/
-def ramanCoefToLegacySorted (params : Dict) : PyR Dict := do
-  match params.get? "raman_coefficient" with
-  | some rcj =>
-    if !pyIn "g0_per_frequency" rcj then return params
-    let rc ← asObj rcj
-    let p := params.erase "raman_coefficient"
-    let items ← sortByNumKey true "frequency_offset" (← asArr (popD rc "g0_per_frequency"))
-    let g0l ← column "g0" items
-    let fol ← column "frequency_offset" items
-    if fol.isEmpty then return p
-    let rf ← (rc.erase "g0_per_frequency").get "reference_frequency"
-    return p.set "raman_coefficient" (.obj [("reference_frequency", rf), ("g0", .arr g0l),
-      ("frequency_offset", .arr fol)])
-  | none => return params
-
-def convertBackRamanCoefSorted (doc : Dict) : PyR Dict :=
-  forEachIn doc "elements" (fun elem => withParams elem ramanCoefToLegacySorted)
 
 /-- `reorder_lumped_losses_objects` -/
 def reorderLumpedLosses (doc : Dict) : PyR Dict :=
@@ -707,15 +654,6 @@ def ramanEffToLegacy (fe : Dict) : PyR Dict := do
 
 def convertBackRamanEfficiency (doc : Dict) : PyR Dict :=
   forEachIfPresent doc "RamanFiber" ramanEffToLegacy
-
-/-- `convert_back_raman_efficiency` with the proposed repair of F11 -/
-def ramanEffToLegacySorted (fe : Dict) : PyR Dict := do
-  match fe.get? "raman_efficiency" with
-  | some (.arr re) => ramanEffToLegacy (fe.set "raman_efficiency" (.arr (← sortByNumKey true "frequency_offset" re)))
-  | _ => return fe
-
-def convertBackRamanEfficiencySorted (doc : Dict) : PyR Dict :=
-  forEachIfPresent doc "RamanFiber" ramanEffToLegacySorted
 
 /-- `convert_range_to_dict` -/
 def rangeToDict (r : J) : PyR J := do
@@ -974,16 +912,16 @@ def legacyToYangOld := legacyToYangWith convertRamanEfficiencyOld
 
 /-- the structural part of `yang_to_legacy` (after `convert_empty_to_none` and `convert_back`);
     `backRange` is `convertBackDeltaPowerRange` -/
-def toLegacyStruct (sortIt : Bool) (backRange : Dict → PyR Dict) (d : Dict) : PyR J := do
+def toLegacyStruct (backRange : Dict → PyR Dict) (d : Dict) : PyR J := do
   let topo (d : Dict) : PyR J := do
     let d ← convertBackDegree d
     let d ← convertBackDesignBand d
-    let d ← if sortIt then convertBackLossCoefListSorted d else convertBackLossCoefList d
-    let d ← if sortIt then convertBackRamanCoefSorted d else convertBackRamanCoef d
+    let d ← convertBackLossCoefList d
+    let d ← convertBackRamanCoef d
     return removeNamespace "gnpy-network-topology:" (.obj d)
   let eqpt (d : Dict) : PyR Dict := do
     let d ← backRange d
-    let d ← if sortIt then convertBackRamanEfficiencySorted d else convertBackRamanEfficiency d
+    let d ← convertBackRamanEfficiency d
     convertBackNfCoef d
   if d.has "elements" then topo d
   else if d.has TOPO then topo (← asObj (← d.get TOPO))
@@ -1005,17 +943,15 @@ def toLegacyStruct (sortIt : Bool) (backRange : Dict → PyR Dict) (d : Dict) : 
 
 /-- `yang_to_legacy` with libyang validation left out (the harness only sends validated documents);
     `legacy_to_yang` is still run first, as the code does, so its own errors surface -/
-def yangToLegacyWith (sortIt : Bool) (reff : Dict → PyR Dict) (backRange : Dict → PyR Dict)
+def yangToLegacyWith (reff : Dict → PyR Dict) (backRange : Dict → PyR Dict)
     (reprs : List (Nat × String)) (doc : J) : PyR J := do
   let _ ← legacyToYangWith reff reprs doc
   let j ← convertBack none (emptyToNone doc)
-  toLegacyStruct sortIt backRange (← asObj j)
+  toLegacyStruct backRange (← asObj j)
 
-def yangToLegacy := yangToLegacyWith false convertRamanEfficiency convertBackDeltaPowerRange
-/-- with the proposed repair of F11: frequency-keyed lists are taken in ascending key order -/
-def yangToLegacySorted := yangToLegacyWith true convertRamanEfficiency convertBackDeltaPowerRange
+def yangToLegacy := yangToLegacyWith convertRamanEfficiency convertBackDeltaPowerRange
 /-- the converter before the repairs of F6 and F7 -/
-def yangToLegacyOld := yangToLegacyWith false convertRamanEfficiencyOld convertBackDeltaPowerRangeOld
+def yangToLegacyOld := yangToLegacyWith convertRamanEfficiencyOld convertBackDeltaPowerRangeOld
 
 /-! ### the Raman coefficient a library fibre entry ends up with (`json_io.Fiber.__init__`) -/
 
